@@ -47,6 +47,13 @@ Section EditSpec.
   Definition ValidScript (lhs rhs : list T) (es : list edit) : Prop :=
     Valid lhs rhs (expand lhs es).
 
+  (* The same thing read as an execution (the doc comment of EditScript): what the script
+     consumes from lhs and what it sends to the output. *)
+  Definition consumed (es : list edit) : list T :=
+    flat_map (fun e => match eop e with Copy => [] | _ => X e end) es.
+  Definition produced (es : list edit) : list T :=
+    flat_map (fun e => match eop e with Drop => [] | Emit => X e | Copy | Replace => Y e end) es.
+
   (* number of elements kept (emitted from lhs) *)
   Fixpoint kept (es : list edit) : nat :=
     match es with
@@ -151,6 +158,8 @@ Arguments EqLists {T} eqb l r.
 Arguments expand {T} lhs es.
 Arguments ValidScript {T} eqb lhs rhs es.
 Arguments kept {T} es.
+Arguments consumed {T} es.
+Arguments produced {T} es.
 Arguments is_nil {A} l.
 Arguments nonempty_edit {T} e.
 Arguments is_op {T} o e.
